@@ -180,8 +180,26 @@ def h_step_report(ctx):
     want_fraction = _fraction(expected - s._expected_prior, s.packets_received - s._received_prior)
     want_highest = (s.cycles + s.max_seq) & U32
     want_jitter = s._jitter_q4 >> 4
+    # last sender report: none, or one seen `elapsed` ms ago on a wall clock that may also have
+    # stepped backwards or stood still for days
+    have_sr = bool(ctx.bool("have_sr"))
+    lsr = ctx.int("lsr", 0, U32)
+    elapsed_ms = ctx.int("elapsed_ms", -(10**6), 1 << 40)
+    if have_sr:
+        lsrs = sx.SymDict() if sx.active() else {}
+        lsrs[ssrc] = lsr
+        times = sx.SymDict() if sx.active() else {}
+        times[ssrc] = 0
+        r._RTCRtpReceiver__lsr = lsrs
+        r._RTCRtpReceiver__lsr_time = times
+
+    class _Time:
+        @staticmethod
+        def time():
+            return elapsed_ms / 1000
+
     stub = _AsyncioStub()
-    with Patch(recv, asyncio=stub, random=_Random()):
+    with Patch(recv, asyncio=stub, random=_Random(), time=_Time):
         sx.run(r._run_rtcp())  # an escaping exception kills the RTCP task: violation
     ctx.reach("rtcp-iteration-done")
     ctx.check(r._RTCRtpReceiver__rtcp_exited.is_set(), "rtcp-task-exit-flag-set")
@@ -197,6 +215,12 @@ def h_step_report(ctx):
     ctx.check(sx.eq(rep.fraction_lost, want_fraction), "fraction-lost-A3")
     ctx.check(sx.eq(rep.highest_sequence, want_highest), "extended-highest-includes-cycles")
     ctx.check(sx.Implies(want_jitter <= U32, sx.eq(rep.jitter, want_jitter)), "jitter-reported")
+    if have_sr:
+        in_range = sx.And(elapsed_ms > 0, elapsed_ms < 65536000)
+        ctx.check(sx.eq(rep.lsr, lsr), "lsr-echoed")
+        ctx.check(sx.eq(rep.dlsr, sx.ite(in_range, (elapsed_ms * 65536) // 1000, 0)), "dlsr-is-delay-in-1/65536-s-or-zero-when-not-representable")
+    else:
+        ctx.check(sx.And(sx.eq(rep.lsr, 0), sx.eq(rep.dlsr, 0)), "no-sr-seen-reports-zero-lsr-dlsr")
     ctx.check(sx.And(s._expected_prior == expected, s._received_prior == s.packets_received), "interval-baseline-advanced")
     ctx.observe("report", [rep.fraction_lost, rep.packets_lost, rep.highest_sequence, rep.jitter])
 
